@@ -82,6 +82,7 @@ def gen_case(rng, mode):
     v2 = rng.random() < 0.5
     budget = rng.choice([1, 199, 200, 201, 400, 500, 600, 999, 1000, 1000, 1500, 1500, 2000, 2000, 3000] if rng.random() < 0.93 else [0, -1, -500])
     q = rng.choice([1, 50, 100, 200, 250, 400, 1000, 2000, 5000])
+    q = max(q, budget // 40)          # keeps all-timeout scripts below ~40 polls
     late = rng.random() < 0.5     # agreement tends to come late / never
     npolls = rng.choice([0, 1, 2, 3, 4, 5, 6])
     polls = [gen_poll(rng, not v2, 0.04 if late else 0.3) for _ in range(npolls)]
